@@ -52,7 +52,7 @@ def main(argv=None):
         code = report.finalize(ctx, write_evidence=not a.no_evidence)
         if code == 0 and a.tier == "thorough":
             from sa import selftest
-            code = selftest.run(prop, a.root, jobs=a.jobs)
+            code = selftest.run(prop, a.root, jobs=a.jobs, write=not a.no_evidence)
         return code
     except AnalysisError as e:
         print("ANALYSIS-ERROR property=%s %s" % (prop, e))
